@@ -429,6 +429,9 @@ func DumpVal(v reflect.Value) string {
 	if t == timeType {
 		return "t:" + strconv.FormatInt(v.Interface().(time.Time).UnixNano(), 10)
 	}
+	if t.Kind() == reflect.Struct && t.ConvertibleTo(timeType) {
+		return "t:" + strconv.FormatInt(v.Convert(timeType).Interface().(time.Time).UnixNano(), 10)
+	}
 	switch v.Kind() {
 	case reflect.String:
 		return "s:" + hx(v.String())
